@@ -2,6 +2,7 @@ import CGV.Props.C07
 import CGV.Props.C07Path
 import CGV.Props.C07Tree
 import CGV.Props.C07TreeGraph
+import CGV.Props.C07TreeRead
 #print axioms CGV.C07.C07_symbols_inverse
 #print axioms CGV.C07.C07_single_bond_silent
 #print axioms CGV.C07.C07_marker_fresh
@@ -21,6 +22,10 @@ import CGV.Props.C07TreeGraph
 #print axioms CGV.C07.exGraph_emb
 #print axioms CGV.C07.C07_tree_text
 #print axioms CGV.C07.C07_tree_roundtrip_closed
+#print axioms CGV.C07.treeGraph_tree
+#print axioms CGV.C07.C07_tree_identity
+#print axioms CGV.C07.C07_tree_same_keys
+#print axioms CGV.C07.C07_tree_same_bonds
 #print axioms CGV.C07.graphOfTree_emb
 #print axioms CGV.C07.embT_block
 #print axioms CGV.C07.embK_block
